@@ -19,10 +19,10 @@ CHECKS = {
          "Full for list input: the model of bin completion's search is proved to return an optimal packing (Martello-Toth dominance formalised; explicit fuel bound), never more bins than BFD; every implementation answer is compared with the verified minimum for Partition, Sums and BinCount.", TB),
  "C05": ("proof", "Lean 4 theorems coverDecreasing/twoThirds/threeQuarters_isCover + correspondence + verified checker",
          "Full: each covering algorithm's model is proved to return a valid cover wasting less than one bin, for all inputs; strict correspondence with the code.", TB),
- "C06": ("proof", "Lean 4 consistency theorems (sums = map binSum lists; output projections) + correspondence across all output types",
-         "Every output type of prtpy.out is compared with the projection of the model's single Bins result, and the statement itself is evaluated on the implementation for every sums-only output type.", TB),
- "C07": ("proof", "Lean 4 naturality / validity theorems + correspondence across the five input formats",
-         "Each case is presented as list, numpy array, dict (string and integer names) and names+valueof; named results are judged by the verified checkers; known finding KF4 (bin_completion computes on names).", TB),
+ "C06": ("proof", "Lean 4 theorems (consistency of every algorithm's result, outputs_from_partition, *_sums_values, snp/rnpF_sums_manager_independent, ckk_value_manager_independent) + model-side output projection + correspondence across all output types",
+         "Reported sums = totals of the reported bins is part of every validity theorem; every output type is a proved function of the bins (the model projects it); the sums-only manager's run equals the contents manager's run for all algorithms except CKK with k >= 3, where only the value is proved equal (PARTIAL there; compared strictly on every run). Every case is run once per output type of prtpy.out and the statement itself is evaluated on the implementation.", TB),
+ "C07": ("proof", "Lean 4 naturality theorems (alg (map f) = mapItems f . alg) for 15 algorithms, injective-renaming naturality for CKK/SNP/RNP + validity theorems generic in the value function + correspondence across the five input formats",
+         "Full for the fold-shaped algorithms, KK, CG, CBLDM, DP (any renaming, so repeated values in list input are covered); PARTIAL for CKK/SNP/RNP (naturality only for injective order-preserving renamings; equality of the optimal value otherwise); each case is presented as list, numpy array, dict (string and integer names) and names+valueof and compared strictly with the model; known finding KF4 (bin_completion computes on names).", TB),
  "C08": ("proof", "Lean 4 theorems greedy_four_thirds (Graham), kk_four_thirds, greedy/kk/roundrobin_gap, roundrobin_monotone/cards, multifit_ratio_four_thirds, greedy_maxmin_partial_* + verified DP oracle for the remaining sharp ratios",
          "Gap bounds and round-robin structure full; 4/3 - 1/(3k) proved in full for LPT and for Karmarkar-Karp; PARTIAL: LPT's max-min ratio proved as 2k/(3k-1) (exact ratio under a window hypothesis), multifit proved <= (5/4 + 2^-it) OPT instead of 1.22 + 2^-it; the sharp constants are searched for counter-examples with the verified oracle on every run.", TB),
  "C09": ("proof", "Lean 4 theorems ff/bf(±decreasing)_anyfit, ff/bf_seventeen_tenths_strong (<= 1.7 OPT + 1), ffd/bfd_three_halves, ffd/bfd_partial_four_thirds + verified optBins oracle",
